@@ -4,7 +4,7 @@ import random
 from .. import common, evidence, oalcheck, oalgen, replay, trace
 
 PID = 'C05'
-HOMES = ['func', 'bridge', 'op', 'derived', 'state', 'transition']
+HOMES = ['func', 'bridge', 'op', 'derived', 'state', 'transition', 'portop', 'portsig']
 
 
 def corpus(tier, seed):
@@ -12,19 +12,21 @@ def corpus(tier, seed):
     progs = []
     n = 120 if tier == 'quick' else 2500
     for k in range(n):
-        home = HOMES[k % 6]
+        home = HOMES[k % 8]
         g = oalgen.Gen(random.Random(rnd.randint(0, 10 ** 9)), maxdepth=rnd.choice([2, 3, 3]), parens=0.1, syntax_only=False)
         g.calls = True
         g.home = home
         g.events = True
         g.arrays = True
         g.oddstrings = True
+        # every second model lives in a component with ports (the port homes always do)
+        g.ports = home in ('portop', 'portsig') or k % 2 == 0
         g.casevars = (k % 3 == 1)
         g.no_division = False
-        body = g.program(nstmts=rnd.randint(2, 7), setup=(k % 3 == 0), final_return=(home not in ('derived', 'state', 'transition')))
+        body = g.program(nstmts=rnd.randint(2, 7), setup=(k % 3 == 0), final_return=(home not in ('derived', 'state', 'transition', 'portsig')))
         if home == 'derived':
             body.append(oalgen.Assign(oalgen.Field({'t': 'self'}, 'Calc'), g.expr('int')))
-        progs.append((home, body))
+        progs.append((home, body, g.ports))
     return progs
 
 
@@ -56,11 +58,11 @@ def real_model_texts():
 def build_items(tier, seed, facts=False, cases=('lower', 'lower', 'upper', 'mixed'), strict=False):
     rnd = random.Random(seed + 5)
     progs = corpus(tier, seed)
-    out, _ = oalcheck.unparse_stage([b for _, b in progs])
+    out, _ = oalcheck.unparse_stage([b for _, b, _ in progs])
     items = []
-    for k, ((home, _), o) in enumerate(zip(progs, out)):
+    for k, ((home, _, incomp), o) in enumerate(zip(progs, out)):
         items.append({'home': home, 'body': o['body'], 'toks': o['toks'], 'seed': rnd.randint(0, 10 ** 6),
-                      'case': cases[k % len(cases)], 'layout': ['mixed', 'plain'][k % 2], 'facts': facts, 'strict': strict})
+                      'case': cases[k % len(cases)], 'layout': ['mixed', 'plain'][k % 2], 'facts': facts, 'strict': strict, 'incomp': incomp})
     return items
 
 
@@ -118,7 +120,8 @@ def check(tier, replay_path=None):
              'operation / bridge invocations as statements and inside expressions with by-name parameters in any order, parameter '
              'reads, enumerators, constants; event statements: generate to an instance / creator / class state machine, create event '
              'instance, generate of an event instance, data items by name in any order) placed as the action of a function, a bridge, an '
-             'instance operation, a derived attribute, a state or a transition - also a creation transition - (data items of the received event read as param / rcvd_evt) '
+             'instance operation, a derived attribute, a state or a transition - also a creation transition - (data items of the received event read as param / rcvd_evt), '
+             'a required / provided operation or signal of a port; messages across ports (operations, signals, send ... to) in the models that live in a component; '
              'of a synthesised BridgePoint model, rendered with random layout and keyword case, prebuilt (prebuild_action) and turned '
              'back into text (gen_text_action); TLC requires that the generated text parses, that its tree equals the tree the body '
              'was written for (OalSyntax!StripB) and that prebuilding the generated text generates the same text again',
@@ -127,8 +130,8 @@ def check(tier, replay_path=None):
             'for the action bodies of the real models (tests/test_bridgepoint/test_interpret.py: 26 bodies) the tree is the one the '
             'parser makes of the original text; the optional words bridge / transform and the specification name in front of a '
             'constant are not compared there (the originals leave them out, the generator writes them)',
-            'port messages, signals, non-local polymorphic events and events of external entities are not in this corpus (no ports are '
-            'synthesised)',
+            'non-local polymorphic events and events of external entities are not in this corpus; the word send in front of a message '
+            'across a port is optional: the invocation node class (port / implicit) of the regenerated text is not compared',
             'in a state or transition action the null PP_Id of a V_EPR instance (data item of a state machine event, no property parameter) is '
             'not counted as a uniqueness violation: the ooaofooa schema makes PP_Id part of the identifier of V_EPR',
             'the callables an action invokes are declared in the model with stub bodies',
